@@ -79,6 +79,7 @@ def run(repo, rep):
     if binding_stem_lint(repo, rep, "C11-n", ["graph_optimiser_util"]) < 3:
         raise AnalysisError("binding stems in graph_optimiser_util: fewer than 3 found")
     rule_rewrites_of_unplaced_operators(repo, rep)
+    rule_round10(repo, rep)
     rule_overwritten_options(repo, rep)
     rule_quant_record_kept(repo, rep)
     rule_pass_order(repo, rep)
@@ -1157,3 +1158,37 @@ def rule_round8(repo, rep):
     t = str(norm(key[0])) if key else ""
     rep.check("ops[0].op_index" in t and "primary_op" not in t, "C11-v", "ethosu/vela/pass_packing.py:pack_into_passes", "hoisted CPU passes are ordered by the op_index of their first operator",
               f"key `{t[:90]}`: primary_op is None for VAR_HANDLE / READ_VARIABLE / CALL_ONCE / custom operators: they all get key -1 and keep the traversal order (CALL_ONCE after READ_VARIABLE: the variable is read before its init subgraph ran)")
+
+
+def rule_round10(repo, rep):
+    """(w) subgraph inputs and outputs are handed on in file order: the reader functions that build the interface lists from the index
+    vectors walk the vector in order and apply no ordering operation (np.unique / sorted / set / sort) to it.
+    (x) a trial copy of an operator owns its containers (Operation.clone), so a rejected trial rewrite leaves the CPU operator's options
+    as they were read [rule shared with C16-n]."""
+    rep.clause("C11-w", "subgraph inputs and outputs keep the order of the file's index vectors: the reader builds the lists by walking the vector; no ordering operation touches it")
+    rm = repo.mod("tflite_reader")
+    fn = rm.func("TFLiteSubgraph.get_tensors_from_indices_remove_duplicates")
+    site = "ethosu/vela/tflite_reader.py:TFLiteSubgraph.get_tensors_from_indices_remove_duplicates"
+    prm = fn.args.args[1].arg
+    ordering = [c for c in ast.walk(fn) if isinstance(c, ast.Call) and ((call_name(c) or "").split(".")[-1] in ("unique", "sorted", "set", "frozenset", "sort", "argsort", "reversed", "fromkeys") )]
+    rep.check(not ordering, "C11-w", site, "no ordering operation on the index vector", f"`{str(norm(ordering[0]))[:70]}` re-orders (or makes unordered) the indices: inputs / outputs listed as [5, 3, 2] come out as [2, 3, 5]" if ordering else "")
+    loops = [s for s in ast.walk(fn) if isinstance(s, ast.For) and str(norm(s.iter)) == prm]
+    rets = [s for s in ast.walk(fn) if isinstance(s, ast.Return) and s.value is not None]
+    ok = False
+    if len(loops) == 1 and len(rets) == 1 and isinstance(rets[0].value, ast.Name):
+        res = rets[0].value.id
+        ok = any(isinstance(c, ast.Call) and isinstance(c.func, ast.Attribute) and c.func.attr == "append" and str(norm(c.func.value)) == res for c in ast.walk(loops[0]))
+    elif len(rets) == 1 and isinstance(rets[0].value, ast.ListComp) and len(rets[0].value.generators) == 1 and str(norm(rets[0].value.generators[0].iter)) == prm:
+        ok = True
+    rep.check(ok, "C11-w", site, f"the result is built by walking `{prm}` in order", "the returned list is not filled by a loop over the index vector as given")
+    users = [c for q, f in rm.functions.items() for c in ast.walk(f) if isinstance(c, ast.Call) and (call_name(c) or "").endswith("get_tensors_from_indices_remove_duplicates")]
+    for c in users:
+        a0 = str(norm(c.args[0])) if c.args else ""
+        rep.check(a0.endswith("AsNumpy()") or a0.endswith("_indices") or "Inputs" in a0 or "Outputs" in a0, "C11-w", "ethosu/vela/tflite_reader.py:TFLiteSubgraph.__init__", f"`{str(norm(c))[:80]}` passes the file's vector", f"argument `{a0}`")
+    if len(users) < 2:
+        raise AnalysisError("get_tensors_from_indices_remove_duplicates: fewer than two users (inputs, outputs)")
+    rep.clause("C11-x", "a trial copy of an operator owns its attribute dict and operand lists: a rejected trial rewrite leaves the operator that stays on the CPU as it was read [rule shared with C16-n / C13-af]")
+    from .shared import clone_completeness as _cc11
+
+    if _cc11(repo, rep, "C11-x") < 20:
+        raise AnalysisError("Operation.clone: fewer than 20 members checked")
